@@ -303,6 +303,12 @@ func (val Value) Equals(other Value) Value {
 			}
 		}
 	case ty.IsSetType():
+		if !val.IsWhollyKnown() || !other.IsWhollyKnown() {
+			// A member with unknown parts may turn out to be equal to a
+			// member of the other set, or to coalesce with another member
+			// of its own set.
+			return unknownResult()
+		}
 		s1 := val.v.(set.Set[interface{}])
 		s2 := other.v.(set.Set[interface{}])
 		equal := true
